@@ -468,6 +468,7 @@ class Run:
         self.freqs = []                               # (request, impl floats, meta) tolerance
         self.kernel_vs_def = []                       # round 3: arguments of betw / betwdef pairs
         self.sigma_reqs = []
+        self.newman_def = []                          # round 4
 
     # exact correspondence item
     def exact(self, req, impl, meta):
@@ -1727,7 +1728,7 @@ def run(ctx):
     for fam, A, directed in ssel:
         ctx.count("sweep:family:" + fam)
         ctx.case(("sweep", directed, A.shape[0], A.tobytes().hex()), bool(A.any()))
-        c03_sweep.sweep_graph(ctx, A, directed, api)
+        c03_sweep.sweep_graph(ctx, A, directed, api, run_)
     c03_sweep.coverage_obligation(ctx)
     # inside the model: the statement-by-statement kernel model against the pair-dependency definition,
     # and the path-count recursion against the enumeration of all shortest paths (exact rationals)
@@ -1741,6 +1742,12 @@ def run(ctx):
     ctx.obligation(f"model: path-count recursion == sum over all enumerated shortest paths, exact "
                    f"({len(run_.sigma_reqs)} requests)", "correspondence", not bads, "\n".join(bads[:5]))
 
+    nd = run_.newman_def
+    ansn = common.driver(ctx.pid, nd)
+    badn = [r[:300] for r, x in zip(nd, ansn) if x != "1"]
+    ctx.obligation(f"model: per component, reduced Kirchhoff matrix x computed inverse == identity and "
+                   f"newman kernel + normalisation == sum_(t<s) I_i^st / ((N_c-1)/2), exact ({len(nd)} graphs)",
+                   "correspondence", not badn, "\n".join(badn[:5]))
     # ---------------- correspondence with the Lean model --------------------------------
     ctx.correspond("Lean Net model == Network methods (integer outputs)", run_.reqs, run_.exp)
     freqs = run_.freqs
